@@ -1,0 +1,27 @@
+//go:build verif
+
+package chain
+
+import "sync"
+
+// verification hook (H1): lets a monitor make the store commit after any
+// individual block apply/revert, the way the size/time based trigger can.
+
+var verifFlushPolicies sync.Map // *DBStore -> func() bool
+
+// VerifSetFlushPolicy installs fn as an additional flush trigger for db. A nil
+// fn removes it.
+func VerifSetFlushPolicy(db *DBStore, fn func() bool) {
+	if fn == nil {
+		verifFlushPolicies.Delete(db)
+		return
+	}
+	verifFlushPolicies.Store(db, fn)
+}
+
+func verifForceFlush(db *DBStore) bool {
+	if fn, ok := verifFlushPolicies.Load(db); ok {
+		return fn.(func() bool)()
+	}
+	return false
+}
